@@ -10,16 +10,19 @@ for line in open(log):
     if line.startswith("{"):
         r = json.loads(line)
         conf[r["mutation"]] = r
-for prop in sys.argv[3:]:
+for spec in sys.argv[3:]:
+    # <dir>[:<property>:<offset>]  e.g. C01b:C01:3 saves <root>/C01b/mutations/1 as seeded/C01-4
+    parts = spec.split(":")
+    d, prop, off = parts[0], (parts[1] if len(parts) > 1 else parts[0]), (int(parts[2]) if len(parts) > 2 else 0)
     for n in (1, 2, 3):
-        src = f"{root}/{prop}/mutations/{n}"
+        src = f"{root}/{d}/mutations/{n}"
         if not os.path.isdir(src):
             continue
         c = conf.get(src)
         if not c or not (c["apply"] == c["build"] == c["suite"] == "ok" and c["demo_with"] == "fail" and c["demo_without"] == "pass"):
             print("not confirmed:", src, c)
             continue
-        dst = f"/verif/seeded/{prop}-{n}"
+        dst = f"/verif/seeded/{prop}-{n + off}"
         os.makedirs(dst, exist_ok=True)
         for f in os.listdir(src):
             p = os.path.join(src, f)
@@ -29,7 +32,7 @@ for prop in sys.argv[3:]:
         meta_p = os.path.join(dst, "meta.json")
         meta = json.load(open(meta_p)) if os.path.exists(meta_p) else {}
         meta.update({
-            "id": f"{prop}-{n}", "breaks_property": prop,
+            "id": f"{prop}-{n + off}", "breaks_property": prop,
             "source": "independent sub-agent given only the property text and a scratch worktree",
             "needs_to_manifest": notes[:1500],
             "confirmed": {"applies": "ok", "compiles": "ok", "existing_suite_passes": "ok", "demo_with_change": "fail",
